@@ -30,10 +30,43 @@ MISSING = object()
 # values
 # ---------------------------------------------------------------------------
 
+class Vec:
+    """Number-like with the common ``__radd__`` idiom (0 + v is v itself) and an in-place ``__iadd__``."""
+
+    def __init__(self, n: Any):
+        self.n = n
+
+    def __repr__(self) -> str:
+        return f"Vec({self.n!r})"
+
+    def __add__(self, other: Any) -> "Vec":
+        if isinstance(other, Vec):
+            return Vec(self.n + other.n)
+        return NotImplemented
+
+    def __radd__(self, other: Any) -> "Vec":
+        if other == 0:
+            return self
+        return NotImplemented
+
+    def __iadd__(self, other: Any) -> "Vec":
+        if isinstance(other, Vec):
+            self.n += other.n
+            return self
+        return NotImplemented
+
+    def __eq__(self, other: Any) -> bool:
+        return isinstance(other, Vec) and self.n == other.n
+
+    __hash__ = None  # type: ignore[assignment]
+
+
 def decode(v: Any) -> Any:
     """Decode a JSON-able raw value."""
     if isinstance(v, list):
         tag = v[0]
+        if tag == "V":
+            return Vec(v[1])
         if tag == "F":
             return Fraction(v[1], v[2])
         if tag == "f":
@@ -493,6 +526,8 @@ def run_async_side(spec: dict, flavours: Optional[List[str]] = None, fn_flavours
     F = [make_fn(fs, fl) if fs is not None else None for fs, fl in builtins.zip(side.fns, fn_flavours)]
     inputs = [s for s in S if isinstance(s, builtins.list)]
     before = [(builtins.list(s), builtins.len(s)) for s in inputs]
+    # the state of the elements themselves (whatever the flavour they are handed over in)
+    items_before = [canon(st.items) for st in side.srcs if st.sid != "outer"] if tool.kind == "agg" else None
 
     async def agg_main():
         side.inputs_before = _snapshot(P)
@@ -595,6 +630,11 @@ def run_async_side(spec: dict, flavours: Optional[List[str]] = None, fn_flavours
     side.log = CTX.log
     side.foreign = builtins.list(CTX.foreign)
     side.suspensions = CTX.suspensions
+    if items_before is not None:
+        items_after = [canon(st.items) for st in side.srcs if st.sid != "outer"]
+        if items_after != items_before and not builtins.any(st.drop for st in side.srcs):
+            side.inputs_after = dict(side.inputs_after or {}, mutated_list=True,
+                                     elements=[items_before, items_after])
     # inputs given as lists must be untouched
     for (snap, n), s in builtins.zip(before, inputs):
         if builtins.len(s) != n or builtins.any(x is not y for x, y in builtins.zip(snap, s)):
